@@ -386,7 +386,8 @@ def draw_case(d, kinds=None, *, degenerate=False, general_position=False,
               allow_aligner=True, max_iterations=5, allow_scale=True,
               init_kinds=('dirichlet', 'onehot', 'uniform', 'blurred'),
               cbmm_max_D=6, allow_mask=True, force_lead=None,
-              positive_saliency_only=False, regular_share=True):
+              positive_saliency_only=False, regular_share=True,
+              stable_only=False):
     """Generic generator of a mixture-model fit.
 
     profile 'regular': clustered data in general position, double precision,
@@ -521,6 +522,11 @@ def draw_case(d, kinds=None, *, degenerate=False, general_position=False,
             o['spatial_weight'] = d.choice([1.0, 1.0, 0.0, 0.5, 2.0])
             o['spectral_weight'] = d.choice([1.0, 1.0, 0.0, 0.5, 2.0])
             o['inline_permutation_alignment'] = (K <= 4 and d.int(0, 3) == 0)
+            if stable_only and o['inline_permutation_alignment']:
+                # with a weightless stream every class permutation has the
+                # same auxiliary value (an exact tie decided by rounding)
+                o['spatial_weight'] = d.choice([1.0, 0.5, 2.0])
+                o['spectral_weight'] = d.choice([1.0, 0.5, 2.0])
         if kind == 'cacgmm' and allow_mask and case.init is not None and \
                 case.init.shape == case.aff_shape and d.int(0, 3) == 0:
             m = rng.uniform(size=case.aff_shape) > 0.3
@@ -633,3 +639,75 @@ def oracle_component_log_pdf(model, case, y=None, emb=None):
     else:
         raise NotImplementedError(kind)
     return out
+
+
+# --------------------------------------------------------------------------
+# comparison of two fitted models (gauge free)
+# --------------------------------------------------------------------------
+
+def compare_params(pa, pb, clause, *, rtol=1e-7, atol=1e-9, kind='', what=''):
+    """pa / pb: dictionaries from params().  Every entry is compared with
+    |a-b| <= atol + rtol * max|entry| (matrix-valued entries are scaled by
+    their own largest element, concentrations element-wise)."""
+    for key in pa:
+        a, b = np.asarray(pa[key]), np.asarray(pb[key])
+        if a.shape != b.shape:
+            raise Violation(clause, f'{what} {key}: shape {a.shape} vs {b.shape}',
+                            kind=kind)
+        if not (np.all(np.isfinite(a)) and np.all(np.isfinite(b))):
+            if np.array_equal(np.isfinite(a), np.isfinite(b)):
+                continue
+            raise Violation(clause, f'{what} {key}: non-finite mismatch', kind=kind)
+        if key.endswith('concentration'):
+            err = np.abs(a - b)
+            tol = atol + rtol * np.maximum(np.abs(a), np.abs(b))
+            bad = err > tol
+            if np.any(bad):
+                i = int(np.argmax(err - tol))
+                raise Violation(
+                    clause, f'{what} {key}: {a.ravel()[i]:.10g} vs '
+                            f'{b.ravel()[i]:.10g}', kind=kind)
+        else:
+            scale = max(float(np.max(np.abs(a))) if a.size else 0.0,
+                        float(np.max(np.abs(b))) if b.size else 0.0)
+            err = float(np.max(np.abs(a - b))) if a.size else 0.0
+            if err > atol + rtol * scale:
+                raise Violation(
+                    clause, f'{what} {key}: max|diff|={err:.3e} '
+                            f'(scale {scale:.3e})', kind=kind)
+
+
+def permute_classes(arr, perm, axis):
+    return np.take(arr, perm, axis=axis)
+
+
+def ill_conditioned(model, case):
+    """the fit sits on a numerical guard (eigenvalue floor, concentration
+    clip, vanishing weight): rounding errors are amplified by up to
+    1/floor, so metamorphic / differential comparisons are not judged"""
+    kind = case.kind
+    if kind in ('cacgmm', 'gcacgmm', 'vmfcacgmm'):
+        lam = np.asarray(model.cacg.covariance_eigenvalues)
+        floor = case.opts.get('eigenvalue_floor', 1e-10)
+        mx = lam.max(axis=-1, keepdims=True)
+        if np.any(lam <= floor * mx * (1 + 1e-6)) or np.any(lam < 1e-8 * mx):
+            return True
+    if kind == 'cwmm':
+        c = np.asarray(model.complex_watson.concentration)
+        mc = case.trainer_kwargs.get('max_concentration', 500)
+        if np.any(c <= 0) or np.any(c >= mc):
+            return True
+    if kind in ('vmfmm', 'vmfcacgmm'):
+        c = np.asarray(model.vmf.concentration)
+        lo = case.opts.get('min_concentration', 1e-10)
+        hi = case.opts.get('max_concentration', 500)
+        if np.any(c <= lo) or np.any(c >= hi):
+            return True
+    if kind == 'cbmm':
+        lam = np.asarray(model.complex_bingham.covariance_eigenvalues)
+        if np.any(lam < -1e6):
+            return True
+    w = np.asarray(model.weight)
+    if np.any(w < 1e-12):
+        return True
+    return False
